@@ -2,7 +2,7 @@
    Only statements, `exact`, Print Assumptions and non-vacuity examples. *)
 From Coq Require Import List Bool Arith Reals Lra Sorted.
 Import ListNotations.
-From PS Require Import Num RLemmas Valid ModelKernels ModelFuncs ModelAPI Spec SyncDefs Lem_IsiProps Lem_Transform Lem_Transform2 Lem_API Lem_WF Lem_API2 Lem_API3 Lem_API4 Lem_API5 Lem_API6 Lem_API7 Lem_API8.
+From PS Require Import Num RLemmas Valid ModelKernels ModelFuncs ModelAPI Spec SyncDefs Lem_IsiProps Lem_Transform Lem_Transform2 Lem_API Lem_WF Lem_API2 Lem_API3 Lem_API4 Lem_API5 Lem_API6 Lem_API7 Lem_API8 Lem_API10.
 Require Import PS.Props.PropTac.
 Local Open Scope R_scope.
 
@@ -463,6 +463,143 @@ Theorem C08_order_profile_multi_mirror_partial : forall eps cy mt m l idx ts te,
   end.
 Proof. exact order_profile_multi_mirror_partial. Qed.
 Print Assumptions C08_order_profile_multi_mirror_partial.
+
+(* ---- from Lem_API10.v ---- *)
+Theorem C08_auto_thr_shift : forall c l, auto_thr (map (shift_train c) l) = auto_thr l.
+Proof. exact auto_thr_shift. Qed.
+Print Assumptions C08_auto_thr_shift.
+Theorem C08_auto_thr_scale : forall k l, 0 < k -> auto_thr (map (scale_train k) l) = k * auto_thr l.
+Proof. exact auto_thr_scale. Qed.
+Print Assumptions C08_auto_thr_scale.
+Theorem C08_auto_thr_mirror : forall l ts te, Forall (vtrain ts te) l ->
+  auto_thr (map mirror_tr l) = auto_thr l.
+Proof. exact auto_thr_mirror. Qed.
+Print Assumptions C08_auto_thr_mirror.
+Theorem C08_multi_scalars_shift_auto : forall eps cy nrm mt ri iv c l idx ts te,
+  Forall (vtrain ts te) l -> iv_ok ts te iv ->
+  let m := auto_thr l in let m' := auto_thr (map (shift_train c) l) in
+  isi_distance_multi ROps eps cy false m' (shift_iv c iv) (map (shift_train c) l) idx
+    = isi_distance_multi ROps eps cy false m iv l idx /\
+  spike_distance_multi ROps eps cy false m' ri (shift_iv c iv) (map (shift_train c) l) idx
+    = spike_distance_multi ROps eps cy false m ri iv l idx /\
+  spike_sync_multi ROps eps cy false mt m' (shift_iv c iv) (map (shift_train c) l) idx
+    = spike_sync_multi ROps eps cy false mt m iv l idx /\
+  spike_train_order_multi ROps eps cy false nrm mt m' (map (shift_train c) l) idx
+    = spike_train_order_multi ROps eps cy false nrm mt m l idx /\
+  isi_distance_matrix ROps eps cy false m' (shift_iv c iv) (map (shift_train c) l) idx
+    = isi_distance_matrix ROps eps cy false m iv l idx /\
+  spike_distance_matrix ROps eps cy false m' ri (shift_iv c iv) (map (shift_train c) l) idx
+    = spike_distance_matrix ROps eps cy false m ri iv l idx /\
+  spike_sync_matrix ROps eps cy false mt m' (shift_iv c iv) (map (shift_train c) l) idx
+    = spike_sync_matrix ROps eps cy false mt m iv l idx /\
+  isi_profile_multi ROps eps cy false m' (map (shift_train c) l) idx
+    = rmap (shift_pwc c) (isi_profile_multi ROps eps cy false m l idx) /\
+  spike_profile_multi ROps eps cy false m' ri (map (shift_train c) l) idx
+    = rmap (shift_pwl c) (spike_profile_multi ROps eps cy false m ri l idx) /\
+  spike_sync_profile_multi ROps eps cy false mt m' (map (shift_train c) l) idx
+    = rmap (shift_df c) (spike_sync_profile_multi ROps eps cy false mt m l idx) /\
+  order_profile_multi ROps eps cy false mt m' (map (shift_train c) l) idx
+    = rmap (shift_df c) (order_profile_multi ROps eps cy false mt m l idx).
+Proof. exact multi_scalars_shift_auto. Qed.
+Print Assumptions C08_multi_scalars_shift_auto.
+Theorem C08_multi_scalars_scale_auto : forall eps cy nrm mt ri iv k l idx ts te,
+  0 < k -> cy = true \/ 0 <= eps -> Forall (vtrain ts te) l -> iv_ok ts te iv ->
+  let m := auto_thr l in let m' := auto_thr (map (scale_train k) l) in
+  isi_distance_multi ROps eps cy false m' (scale_iv k iv) (map (scale_train k) l) idx
+    = isi_distance_multi ROps eps cy false m iv l idx /\
+  spike_distance_multi ROps eps cy false m' ri (scale_iv k iv) (map (scale_train k) l) idx
+    = spike_distance_multi ROps eps cy false m ri iv l idx /\
+  spike_sync_multi ROps eps cy false (k * mt) m' (scale_iv k iv) (map (scale_train k) l) idx
+    = spike_sync_multi ROps eps cy false mt m iv l idx /\
+  spike_train_order_multi ROps eps cy false nrm (k * mt) m' (map (scale_train k) l) idx
+    = spike_train_order_multi ROps eps cy false nrm mt m l idx /\
+  isi_distance_matrix ROps eps cy false m' (scale_iv k iv) (map (scale_train k) l) idx
+    = isi_distance_matrix ROps eps cy false m iv l idx /\
+  spike_distance_matrix ROps eps cy false m' ri (scale_iv k iv) (map (scale_train k) l) idx
+    = spike_distance_matrix ROps eps cy false m ri iv l idx /\
+  spike_sync_matrix ROps eps cy false (k * mt) m' (scale_iv k iv) (map (scale_train k) l) idx
+    = spike_sync_matrix ROps eps cy false mt m iv l idx /\
+  isi_profile_multi ROps eps cy false m' (map (scale_train k) l) idx
+    = rmap (scale_pwc k) (isi_profile_multi ROps eps cy false m l idx) /\
+  spike_profile_multi ROps eps cy false m' ri (map (scale_train k) l) idx
+    = rmap (scale_pwl k) (spike_profile_multi ROps eps cy false m ri l idx) /\
+  spike_sync_profile_multi ROps eps cy false (k * mt) m' (map (scale_train k) l) idx
+    = rmap (scale_df k) (spike_sync_profile_multi ROps eps cy false mt m l idx) /\
+  order_profile_multi ROps eps cy false (k * mt) m' (map (scale_train k) l) idx
+    = rmap (scale_df k) (order_profile_multi ROps eps cy false mt m l idx).
+Proof. exact multi_scalars_scale_auto. Qed.
+Print Assumptions C08_multi_scalars_scale_auto.
+Theorem C08_multi_scalars_mirror_auto : forall eps cy mt ri l idx ts te, Forall (vtrain ts te) l ->
+  let m := auto_thr l in let m' := auto_thr (map mirror_tr l) in
+  isi_distance_multi ROps eps cy false m' None (map mirror_tr l) idx
+    = isi_distance_multi ROps eps cy false m None l idx /\
+  spike_distance_multi ROps eps cy false m' ri None (map mirror_tr l) idx
+    = spike_distance_multi ROps eps cy false m ri None l idx /\
+  spike_sync_multi ROps eps cy false mt m' None (map mirror_tr l) idx
+    = spike_sync_multi ROps eps cy false mt m None l idx /\
+  spike_train_order_multi ROps eps cy false false mt m' (map mirror_tr l) idx
+    = rmap Ropp (spike_train_order_multi ROps eps cy false false mt m l idx) /\
+  isi_distance_matrix ROps eps cy false m' None (map mirror_tr l) idx
+    = isi_distance_matrix ROps eps cy false m None l idx /\
+  spike_distance_matrix ROps eps cy false m' ri None (map mirror_tr l) idx
+    = spike_distance_matrix ROps eps cy false m ri None l idx /\
+  spike_sync_matrix ROps eps cy false mt m' None (map mirror_tr l) idx
+    = spike_sync_matrix ROps eps cy false mt m None l idx /\
+  isi_profile_multi ROps eps cy false m' (map mirror_tr l) idx
+    = rmap (mirror_pwc ts te) (isi_profile_multi ROps eps cy false m l idx) /\
+  spike_profile_multi ROps eps cy false m' ri (map mirror_tr l) idx
+    = rmap (mirror_pwl ts te) (spike_profile_multi ROps eps cy false m ri l idx) /\
+  spike_sync_profile_multi ROps eps cy false mt m' (map mirror_tr l) idx
+    = rmap (mirror_df ts te) (spike_sync_profile_multi ROps eps cy false mt m l idx) /\
+  (forall P, order_profile_multi ROps eps cy false mt m l idx = Ok P -> removelast (tl P) <> [] ->
+     order_profile_multi ROps eps cy false mt m' (map mirror_tr l) idx = Ok (mirror_neg_df ts te P)).
+Proof. exact multi_scalars_mirror_auto. Qed.
+Print Assumptions C08_multi_scalars_mirror_auto.
+Theorem C08_bi_scalars_shift_auto : forall eps cy nrm mt ri iv c a b ts te,
+  vtrain ts te a -> vtrain ts te b -> iv_ok ts te iv ->
+  let m := auto_thr [a; b] in let m' := auto_thr [shift_train c a; shift_train c b] in
+  isi_distance_bi ROps eps cy false m' (shift_iv c iv) (shift_train c a) (shift_train c b)
+    = isi_distance_bi ROps eps cy false m iv a b /\
+  spike_distance_bi ROps eps cy false m' ri (shift_iv c iv) (shift_train c a) (shift_train c b)
+    = spike_distance_bi ROps eps cy false m ri iv a b /\
+  spike_sync_bi ROps eps cy false mt m' (shift_iv c iv) (shift_train c a) (shift_train c b)
+    = spike_sync_bi ROps eps cy false mt m iv a b /\
+  spike_train_order_bi ROps eps cy false nrm mt m' (shift_train c a) (shift_train c b)
+    = spike_train_order_bi ROps eps cy false nrm mt m a b /\
+  spike_directionality ROps eps cy false nrm mt m' (shift_train c a) (shift_train c b)
+    = spike_directionality ROps eps cy false nrm mt m a b.
+Proof. exact bi_scalars_shift_auto. Qed.
+Print Assumptions C08_bi_scalars_shift_auto.
+Theorem C08_bi_scalars_scale_auto : forall eps cy nrm mt ri iv k a b ts te, 0 < k -> cy = true \/ 0 <= eps ->
+  vtrain ts te a -> vtrain ts te b -> iv_ok ts te iv ->
+  let m := auto_thr [a; b] in let m' := auto_thr [scale_train k a; scale_train k b] in
+  isi_distance_bi ROps eps cy false m' (scale_iv k iv) (scale_train k a) (scale_train k b)
+    = isi_distance_bi ROps eps cy false m iv a b /\
+  spike_distance_bi ROps eps cy false m' ri (scale_iv k iv) (scale_train k a) (scale_train k b)
+    = spike_distance_bi ROps eps cy false m ri iv a b /\
+  spike_sync_bi ROps eps cy false (k * mt) m' (scale_iv k iv) (scale_train k a) (scale_train k b)
+    = spike_sync_bi ROps eps cy false mt m iv a b /\
+  spike_train_order_bi ROps eps cy false nrm (k * mt) m' (scale_train k a) (scale_train k b)
+    = spike_train_order_bi ROps eps cy false nrm mt m a b /\
+  spike_directionality ROps eps cy false nrm (k * mt) m' (scale_train k a) (scale_train k b)
+    = spike_directionality ROps eps cy false nrm mt m a b.
+Proof. exact bi_scalars_scale_auto. Qed.
+Print Assumptions C08_bi_scalars_scale_auto.
+Theorem C08_bi_scalars_mirror_auto : forall eps cy nrm mt ri a b ts te,
+  vtrain ts te a -> vtrain ts te b ->
+  let m := auto_thr [a; b] in let m' := auto_thr [mirror_tr a; mirror_tr b] in
+  isi_distance_bi ROps eps cy false m' None (mirror_tr a) (mirror_tr b)
+    = isi_distance_bi ROps eps cy false m None a b /\
+  spike_distance_bi ROps eps cy false m' ri None (mirror_tr a) (mirror_tr b)
+    = spike_distance_bi ROps eps cy false m ri None a b /\
+  spike_sync_bi ROps eps cy false mt m' None (mirror_tr a) (mirror_tr b)
+    = spike_sync_bi ROps eps cy false mt m None a b /\
+  spike_train_order_bi ROps eps cy false false mt m' (mirror_tr a) (mirror_tr b)
+    = rmap Ropp (spike_train_order_bi ROps eps cy false false mt m a b) /\
+  spike_directionality ROps eps cy false nrm mt m' (mirror_tr a) (mirror_tr b)
+    = rmap Ropp (spike_directionality ROps eps cy false nrm mt m a b).
+Proof. exact bi_scalars_mirror_auto. Qed.
+Print Assumptions C08_bi_scalars_mirror_auto.
 
 Example C08_nonvacuous : valid 0 1 [1/4; 5/8; 1] /\ valid 0 1 [0] /\ valid 0 1 (mirror_train 0 1 [1/4; 5/8; 1]).
 Proof. split; [valid_tac|split; [valid_tac|]]. apply valid_mirror. valid_tac. Qed.
